@@ -45,8 +45,9 @@ Proof. exact partial_yaml. Qed.
 Print Assumptions C13_partial_yaml.
 
 (* the Fortran backend: the guard is  fixed_D29 || FortranClean  (fixed_D29 = the switch for the repair D96, fixes/fix_D96.diff:
-   the extension module is named per generated source).  While the switch is false, history independence additionally needs that
-   no extension module was imported before (never reset: see C13_ext_mods_persist); with the switch true that guard is gone. *)
+   the extension module is named per generated source; true since /repo 8faa606, so the guard is trivially true and FortranClean is gone).
+   NOTE, before D96 (switch false) history independence additionally needed that no extension module was imported before (never reset:
+   see C13_ext_mods_persist). *)
 Theorem C13_partial_fortran : forall h m file, CachesClean h = true -> (fixed_D29 || FortranClean h) = true ->
   obs_of_fortran (run_hist h G0) m file = obs_of_fortran G0 m file.
 Proof. exact partial_fortran. Qed.
